@@ -340,7 +340,7 @@ class Output(object):
         # Loop over rows
         for i in range(len(x)):
             line = ""
-            line += ','.join(str(descs[k][i]) for k in descs)
+            line += ','.join(("All" if descs[k] is None else str(descs[k][i])) for k in descs)
             for f in range(y.shape[1]):
                 line = line + ',%g' % y[i, f]
             s += line + "\n"
